@@ -572,6 +572,8 @@ class Registry:
                 return None
             if isinstance(cur, VRef):
                 objs.append(cur)
+            elif parent is not None:
+                objs.append(("field", parent[0], parent[1]))   # a single primitive field of an object
             else:
                 objs.append(recv)
         return objs, set(c.ghost_modifies)
